@@ -966,5 +966,6 @@ func specOp(r *Rand) Op {
 		op.Kind = KSpecOne
 		op.COE = nil
 	}
+	op.ReuseSV = op.Kind == KSpec && op.COE != nil && r.Chance(300)
 	return op
 }
